@@ -196,10 +196,11 @@ func TestVerifC12HTTP(t *testing.T) {
 		listen("ll", net.JoinHostPort(ll.Addr["zoneC"], "0"))
 	}
 
+	var redirected int64
 	var ran, reqs, skipped, forwarded, denied, zonedPeers, nontrivial, plumbing int64
 	var sampleMu sync.Mutex
 	var samples []string
-	status2outcome := map[int]string{200: "forward", 403: "deny403", 401: "deny401"}
+	status2outcome := map[int]string{200: "forward", 301: "redirect", 403: "deny403", 401: "deny401"}
 
 	runOne := func(c *verifx.C12Case, n int64) {
 		cc := concOf(c)
@@ -255,6 +256,12 @@ func TestVerifC12HTTP(t *testing.T) {
 			case !known:
 				verifx.Fail(cc2, c.Features("http", "unexpected-status", rulesCause), "%s: status %d (upstream hits %d)", desc, status, hits)
 				continue
+			case out == "redirect" && !c.Auth:
+				verifx.Fail(cc2, c.Features("http", "redirected-must-not", "scheme:"+c.Scheme+"/creds:"+c.Creds),
+					"%s: status %d (the new location) although the credentials are not accepted by scheme %q - the client must be told 401", desc, status, c.Scheme)
+			case out == "redirect" && !c.May:
+				verifx.Fail(cc2, c.Features("http", "redirected-must-deny", rulesCause),
+					"%s: status %d (the new location) although the well-formed part of the rules does not admit the request - the client must be told 403", desc, status)
 			case out == "forward" && !c.May:
 				cause := c.Cause(style, func(st string, strip, noFill bool) (bool, bool) {
 					if strip && strings.Contains(cc.Addr[c.Peer], "%") {
@@ -283,7 +290,11 @@ func TestVerifC12HTTP(t *testing.T) {
 					verifx.Fail(cc2, c.Features("http", "forwarded-hit-count", rulesCause), "%s: status 200 but the upstream counted %d hits", desc, hits)
 				}
 			} else {
-				atomic.AddInt64(&denied, 1)
+				if out == "redirect" {
+					atomic.AddInt64(&redirected, 1)
+				} else {
+					atomic.AddInt64(&denied, 1)
+				}
 				if hits != 0 {
 					verifx.Fail(cc2, c.Features("http", "denied-but-upstream-contacted", rulesCause), "%s: status %d but the upstream was contacted %d time(s)", desc, status, hits)
 				}
@@ -323,6 +334,6 @@ func TestVerifC12HTTP(t *testing.T) {
 	wg.Wait()
 	b, _ := json.Marshal(env.front)
 	verifx.Summary(map[string]any{"cases": len(cases), "ran": ran, "requests": reqs, "skipped_no_source_address": skipped,
-		"forwarded": forwarded, "denied": denied, "zoned_peer_cases": zonedPeers, "routes": len(env.routes),
+		"forwarded": forwarded, "redirected": redirected, "denied": denied, "zoned_peer_cases": zonedPeers, "routes": len(env.routes),
 		"distinct_nontrivial": nontrivial, "listeners": string(b), "samples": samples, "plumbing": plumbing})
 }
